@@ -84,6 +84,79 @@ def angle(r):
     return round(r.uniform(-6.2, 6.2), r.randint(1, 9))
 
 
+TWO_PI = 2 * math.pi
+
+
+def near_full_circle(r, p, kind=None):
+    """An orientation interval [a, b] (-2 pi <= a <= b <= 2 pi, b - a < 2 pi as AngleInterval demands) whose length is within a
+    few units of the p-th decimal of a full turn: what 'any direction' looks like in a goal region.  Kinds:
+      pm-pi   +-pi cut off after d > p decimals (AngleInterval(-3.14159, 3.14159)),
+      slack   length 2 pi - k * 10**-p (k from 0.04 to 2.5) from a random start, bounds not representable with p decimals,
+      grid    both bounds multiples of 10**-p (written exactly), the longest such interval below 2 pi,
+      tiny    one bound with an exponent-form repr (0 < |a| < 1e-4) just beside zero, the other the largest multiple of 10**-p
+              below 2 pi (float_to_str ROUNDS such a bound and cuts the digits of every other one)."""
+    p = max(0, min(int(p), 15))
+    u = 10.0 ** -p
+    kind = kind or r.choice(["pm-pi", "pm-pi", "slack", "slack", "grid", "tiny"])
+    a = b = None
+    if kind == "slack":
+        L = TWO_PI - r.choice([0.04, 0.3, 0.5, 0.9, 1.0, 1.5, 1.9, 2.5]) * u
+        a = round(r.uniform(-TWO_PI, TWO_PI - L - 1e-12), min(15, p + r.randint(1, 3)))
+        b = a + L
+    elif kind == "grid":
+        n = math.floor(TWO_PI * 10 ** p)
+        n -= 1 if n / 10 ** p >= TWO_PI - 1e-12 else 0
+        k = r.randint(-math.floor(TWO_PI * 10 ** p), 0)
+        a, b = k / 10 ** p, (k + n) / 10 ** p
+    elif kind == "tiny":
+        b = math.floor(TWO_PI * 10 ** p) / 10 ** p
+        gap = TWO_PI - b
+        t = (0.5 * u + min(u, gap)) / 2 if gap > 0.5 * u else gap * r.choice([0.3, 0.9])
+        if 0 < t < 1e-4:
+            a = -t
+            if r.random() < 0.5:
+                a, b = -b, t
+    if a is None or not (-TWO_PI <= a <= b <= TWO_PI and b - a < TWO_PI - 1e-12):
+        d = min(15, p + r.randint(1, 3))
+        h = math.floor(math.pi * 10 ** d) / 10 ** d
+        a, b = -h, h
+    return [float(a), float(b)]
+
+
+def effective_precision(spec):
+    w = ((spec.get("var") or {}).get("writer") or {}).get("precision", "spec")
+    return spec["precision"] if w == "spec" else (4 if w == "default" else w)
+
+
+def _interval_states(o, out):
+    if isinstance(o, dict):
+        if isinstance(o.get("ori"), dict) and "iv" in o["ori"]:
+            out.append(o)
+        for v in o.values():
+            _interval_states(v, out)
+    elif isinstance(o, list):
+        for v in o:
+            _interval_states(v, out)
+
+
+def widen_orientations(r, spec, force=False):
+    """Dimension 'almost a full turn': some (force: the first goal and every) interval-valued orientation of the goal states and
+    of the uncertain obstacle / trajectory states becomes near_full_circle at the precision the writer will use."""
+    p = effective_precision(spec)
+    first = True
+    for pr in spec["problems"]:
+        for g in pr["goals"]:
+            if (force and first) or (g["ori"] is not None and r.random() < 0.25):
+                g["ori"] = near_full_circle(r, p)
+            first = False
+    states = []
+    _interval_states({k: v for k, v in spec.items() if k != "problems"}, states)
+    for s in states:
+        if force or r.random() < 0.3:
+            s["ori"] = {"iv": near_full_circle(r, p)}
+    return spec
+
+
 def pt(r, tiny=0.25, big=0.2, huge=0.04):
     return [num(r, tiny, big, huge), num(r, tiny, big, huge)]
 
@@ -398,6 +471,7 @@ def gen_spec(r, repo, size=None):
             goals.append(g)
         spec["problems"].append({"id": ids.new(), "init": init, "goals": goals})
     spec["var"] = gen_var(r, spec)
+    widen_orientations(r, spec)
     return spec
 
 
